@@ -20,11 +20,13 @@
 
 use std::borrow::Cow;
 
-#[cfg(feature = "n6")]
+#[cfg(feature = "n4")]
+pub const MAXN: usize = 4;
+#[cfg(all(feature = "n6", not(feature = "n4")))]
 pub const MAXN: usize = 6;
-#[cfg(all(feature = "n12", not(feature = "n6")))]
+#[cfg(all(feature = "n12", not(any(feature = "n4", feature = "n6"))))]
 pub const MAXN: usize = 12;
-#[cfg(not(any(feature = "n6", feature = "n12")))]
+#[cfg(not(any(feature = "n4", feature = "n6", feature = "n12")))]
 pub const MAXN: usize = 8;
 
 pub const NIL: u8 = 255;
